@@ -52,7 +52,7 @@ let show_sres (r : sres) : string = match r with
   | S_BadIndex -> "BADINDEX"
 
 let show_finding (k : finding) : string = match k with
-  | KfWriteAtAppend -> "KfWriteAtAppend" | KfDirRestart -> "KfDirRestart" | KfDirAllAfterPartial -> "KfDirAllAfterPartial"
+  | KfDirRestart -> "KfDirRestart" | KfDirAllAfterPartial -> "KfDirAllAfterPartial"
   | KfDirMixedCursors -> "KfDirMixedCursors" | KfDirSeek -> "KfDirSeek"
 let show_dfinding = show_finding
 
